@@ -68,7 +68,9 @@ def run(case):
             pos.append(((j0 + (S - 1) / 2) * b + (b - 1) / 2) * scale)
         feats = pl.DataFrame({"uid": [100 * t + i for i in range(nm)]})
         moles.append(Molecules(np.array(pos), Rotation.from_quat(np.tile([0, 0, 0, 1.0], (nm, 1))), features=feats))
-    imgs = [da.from_array(A, chunks=int(rng.choice([7, 16, 64]))) if p["dask"] else A for A in tomos]
+    mixed = bool(p["dask"] and p["kind"] == "batch" and rng.random() < 0.5)   # numpy and dask images side by side
+    imgs = [da.from_array(A, chunks=int(rng.choice([7, 16, 64]))) if (p["dask"] and not (mixed and rng.random() < 0.5))
+            else A for A in tomos]
 
     if p["kind"] == "single":
         loader = SubtomogramLoader(imgs[0], moles[0], order=order, scale=scale, output_shape=(S,) * 3)
